@@ -38,6 +38,8 @@ pub struct Storage {
     map: HashMap<Key, (Option<(AnyNode, usize)>, RecursiveInfo)>,
     keys: VecDeque<Key>,
     pub counters: MemoCounters,
+    /// names of the parsers that stored a result since the last reset
+    names: std::collections::BTreeSet<&'static str>,
 }
 
 fn guard_of(ptr: *const u8, info: &RecursiveInfo) -> RecursiveInfo {
@@ -58,6 +60,7 @@ impl Storage {
             map: HashMap::new(),
             keys: VecDeque::new(),
             counters: MemoCounters::default(),
+            names: Default::default(),
         }
     }
 
@@ -99,6 +102,7 @@ impl Storage {
             }
         }
         self.counters.inserts += 1;
+        self.names.insert(k.0);
         self.keys.push_back(k.clone());
         self.map.insert(k, (value, guard));
     }
@@ -141,7 +145,17 @@ pub fn memo_counters() -> MemoCounters {
 }
 
 pub fn reset_memo_counters() {
-    crate::PACKRAT_STORAGE.with(|s| s.borrow_mut().counters = MemoCounters::default());
+    crate::PACKRAT_STORAGE.with(|s| {
+        let mut s = s.borrow_mut();
+        s.counters = MemoCounters::default();
+        s.names.clear();
+    });
+}
+
+/// Names of the memoised parsers that stored a result since the last reset (the memo configuration
+/// as far as the executed inputs reach it).
+pub fn memo_parser_names() -> Vec<&'static str> {
+    crate::PACKRAT_STORAGE.with(|s| s.borrow().names.iter().cloned().collect())
 }
 
 // ----------------------------------------------------------------------------
